@@ -39,7 +39,7 @@ def run(ctx):
         ctx.check("C19-R1", "builder::" + nm, s2 == [want], "SelfSignedIdentityBuilder::%s is %s, expected %s" % (nm, s2, want), where(g))
     g = A.fn(B + "build")
     with depth_limit(8):
-        okp = [p for p in nonpanic(walk(g)) if path_sig(p)[1].startswith("return Result::Ok(Identity::new(")]
+        okp = [p for p in nonpanic(walk(g)) if path_sig(p)[1].startswith("return Result::Ok(Identity(")]
         ev = [e for p in okp for e in event_strs(p)]
     ctx.check("C19-R1", "key algorithm ECDSA P-256", any(e == "KeyPair::generate_for(PKCS_ECDSA_P256_SHA256)" for e in ev), "build() does not generate the key with &PKCS_ECDSA_P256_SHA256: %s" % [e for e in ev if "generate_for" in e][:1], where(g))
     ctx.check("C19-R1", "SANs unchanged", any(e == "CertificateParams::new(self.0.sans)" for e in ev), "build() does not pass the requested SANs to CertificateParams::new", where(g))
@@ -67,7 +67,7 @@ def run(ctx):
         if "::tests::" not in fn2.path:
             sites.add(fn2.path)
     allowed = {T + "Certificate::from_der", T + "Certificate::from_rustls_pki", B + "build", "<wtransport::tls::Certificate as std::clone::Clone>::clone"}
-    ctx.check("C19-R2", "who constructs Certificate", sites <= allowed and (T + "Certificate::from_der") in sites, "Certificate(..) is constructed outside the validated constructors: %s" % sorted(sites - allowed))
+    ctx.check("C19-R2", "who constructs Certificate", sites <= allowed and ((T + "Certificate::from_der") in sites or (T + "Certificate::from_rustls_pki") in sites), "Certificate(..) is constructed outside the validated constructors: %s" % sorted(sites - allowed))
     for loader in ("Certificate::load_pemfile", "CertificateChain::load_pemfile"):
         fs = [x for x in A.fn_list if x.path.startswith(T + loader) and x.body]
         calls = {bb["t"]["f"].get("path") for x in fs for bb in x.body["blocks"] if bb["t"]["k"] == "call"}
@@ -129,10 +129,18 @@ def run(ctx):
     lb = sg2.get(("fmt is BytesArray",), "")
     ld = sg2.get(("fmt is DottedHex",), "")
     ctx.check("C19-R3", "BytesArray formatter = {:?} of the array", "Argument::new_debug(self.0)" in lb.replace("*", "&") or "new_debug(" in lb, "BytesArray formatting is not Debug of the byte array: %s" % lb[:120], where(g))
-    ctx.check("C19-R3", "DottedHex formatter joined by ':'", re.search(r"join\(.*,':'\)$", ld) is not None, "DottedHex formatting does not join with ':': %s" % ld[:160], where(g))
-    cf = A.fn(T + "Sha256Digest::fmt::{closure#0}")
-    s2 = [path_sig(p)[1] for p in nonpanic(walk(cf))]
-    ctx.check("C19-R3", "DottedHex element formatter is hexadecimal", len(s2) == 1 and re.search(r"Argument::new_(lower|upper)_hex\(", s2[0]) is not None, "DottedHex elements are not formatted in hexadecimal: %s" % s2, where(cf))
+    # the DottedHex arm, whatever its shape (iterator chain with a closure, or an explicit loop): every text it builds, with its closures
+    with depth_limit(12):
+        fam = [x for x in A.fn_list if x.body and x.path.startswith(T + "Sha256Digest::fmt::{closure")]
+        texts = []
+        for p in walk(g):
+            if any(a == "fmt is DottedHex" for a in path_sig(p)[0]):
+                texts += event_strs(p) + [path_sig(p)[1]]
+        for x in fam:
+            for p in walk(x):
+                texts += event_strs(p) + [path_sig(p)[1]]
+    ctx.check("C19-R3", "DottedHex formatter joined by ':'", any(re.search(r"join\(.*,':'\)", t_) for t_ in texts), "DottedHex formatting does not join with ':': %s" % ld[:160], where(g))
+    ctx.check("C19-R3", "DottedHex element formatter is hexadecimal", any(re.search(r"Argument::new_(lower|upper)_hex\(", t_) for t_ in texts), "DottedHex elements are not formatted in hexadecimal", where(g))
     g = A.fn("<wtransport::tls::Sha256Digest as std::str::FromStr>::from_str")
     sg = sorted(path_sig(p) for p in nonpanic(walk(g)))
     BA = "Sha256Digest::from_str_fmt(s,Sha256DigestFmt::BytesArray)"
@@ -162,13 +170,30 @@ def run(ctx):
     ctx.rule("C19-R7", "identities and chains of every length round-trip: the identity loader takes the whole chain, the chain loader / writer visit every PEM section / certificate")
     gg = A.find1(r"^wtransport::tls::Identity::load_pemfiles::\{closure#0\}$")
     okl = [path_sig(p)[1] for p in nonpanic(walk(gg)) if path_sig(p)[1].startswith("return Result::Ok(")]
-    ctx.check("C19-R7", "Identity::load_pemfiles = (whole chain, key)", okl == ["return Result::Ok(Identity::new(ok(await(CertificateChain::load_pemfile(cert_pemfile))),ok(await(PrivateKey::load_pemfile(private_key_pemfile)))))"],
+    ctx.check("C19-R7", "Identity::load_pemfiles = (whole chain, key)", okl == ["return Result::Ok(Identity(ok(await(CertificateChain::load_pemfile(cert_pemfile))),ok(await(PrivateKey::load_pemfile(private_key_pemfile)))))"],
               "Identity::load_pemfiles does not build the identity from CertificateChain::load_pemfile(cert file) and PrivateKey::load_pemfile(key file): %s" % okl, where(gg))
     gg = A.find1(r"^wtransport::tls::CertificateChain::load_pemfile::\{closure#0\}$")
     okl = [path_sig(p)[1] for p in nonpanic(walk(gg)) if path_sig(p)[1].startswith("return Result::Ok(")]
     FILEB = r"ok\(await\(read\(AsRef::as_ref\(filepath\)\)\)\)"
-    ctx.check("C19-R7", "CertificateChain::load_pemfile collects every section", len(okl) == 1 and re.match(r"^return Result::Ok\(CertificateChain(::new)?\(ok\(Iterator::collect\(Iterator::map\((Iterator::enumerate\()?PemObject::pem_slice_iter\(%s\)\)?,closure:[^()]*\)\)\)\)\)$" % FILEB, okl[0]) is not None,
-              "CertificateChain::load_pemfile is not `collect(map(pem_slice_iter(file bytes), parse))` over all sections (a take / skip / filter / first drops certificates of the chain): %s" % okl, where(gg))
+    formA = len(okl) == 1 and re.match(r"^return Result::Ok\(CertificateChain(::new)?\(ok\(Iterator::collect\(Iterator::map\((Iterator::enumerate\()?PemObject::pem_slice_iter\(%s\)\)?,closure:[^()]*\)\)\)\)\)$" % FILEB, okl[0]) is not None
+    # ... or the same thing as an explicit loop: the iterator is pem_slice_iter(file bytes) (optionally enumerated, no dropping adaptor),
+    # Ok is returned only when it is exhausted, and every iteration that goes round again pushed its certificate
+    psl = walk(gg)
+    its = set()
+    for p in psl:
+        for a in path_sig(p)[0]:
+            m_ = re.match(r"^(<.*? as Iterator>::next\((.*)\)) (ok|fails)$", a)
+            if m_ and "pem_slice_iter(" in m_.group(2):
+                its.add(m_.group(1))
+    formB = False
+    if len(its) == 1:
+        it = its.pop()
+        clean = re.search(r"pem_slice_iter\(%s\)" % FILEB, it) is not None and not re.search(r"::(take|skip|filter|filter_map|step_by|take_while|skip_while|nth|last|rev|peekable|chain|zip)\(", it)
+        oks = [p for p in psl if path_sig(p)[1].startswith("return Result::Ok(")]
+        rounds = [p for p in psl if p.leaf[0] == "loop" and (it + " ok") in path_sig(p)[0]]
+        formB = clean and bool(oks) and all((it + " fails") in path_sig(p)[0] for p in oks) and bool(rounds) and all(any(e.startswith("Vec::push(") for e in event_strs(p)) for p in rounds)
+    ctx.check("C19-R7", "CertificateChain::load_pemfile collects every section", formA or formB,
+              "CertificateChain::load_pemfile is not `collect(map(pem_slice_iter(file bytes), parse))` over all sections, nor a loop over them that pushes every certificate (a take / skip / filter / first drops certificates of the chain): %s" % okl, where(gg))
     gg = A.find1(r"^wtransport::tls::CertificateChain::store_pemfile::\{closure#0\}$")
     ps_ = nonpanic(walk(gg))
     IT = r"<Iter<T> as Iterator>::next\(<I as IntoIterator>::into_iter\(<impl \[T\]>::iter\(self\.0\)\)\)"
@@ -181,7 +206,7 @@ def run(ctx):
               "CertificateChain::store_pemfile does not write to_pem() of each element of the chain and return Ok only when the iterator is exhausted: writes=%s done=%s" % (wr, [d[0][-2:] for d in done]), where(gg))
     gg = A.fn(T + "Identity::clone_identity")
     okl = [path_sig(p)[1] for p in nonpanic(walk(gg))]
-    ctx.check("C19-R7", "Identity::clone_identity clones chain and key", okl == ["return Identity::new(<CertificateChain as Clone>::clone(self.certificate_chain),PrivateKey::clone_key(self.private_key))"], "Identity::clone_identity changed: %s" % okl, where(gg))
+    ctx.check("C19-R7", "Identity::clone_identity clones chain and key", okl == ["return Identity(<CertificateChain as Clone>::clone(self.certificate_chain),PrivateKey::clone_key(self.private_key))"], "Identity::clone_identity changed: %s" % okl, where(gg))
 
     ctx.rule("C19-R4", "no undischarged panic obligation in the digest / DER / PEM parsers")
     n = 0
